@@ -692,6 +692,32 @@ class _Parser(barectf_config_parse_common._Parser):
             for dst_name, dst_node in self._trace_type_node[dsts_prop_name].items():
                 dsts.add(self._create_dst(dst_name, dst_node))
 
+            # Make sure no two generated C functions would have the same
+            # name: the name of a tracing function is
+            # `{data stream type name}_trace_{event record type name}`,
+            # which, for example, is `a_trace_b_trace_c` for both the
+            # data stream type `a` with the event record type
+            # `b_trace_c` and the data stream type `a_trace_b` with the
+            # event record type `c`.
+            func_names: Dict[str, str] = {}
+
+            for dst in sorted(dsts, key=lambda dst: dst.name):
+                dst_func_names = [
+                    (f'{dst.name}_open_packet', f'data stream type `{dst.name}`'),
+                    (f'{dst.name}_close_packet', f'data stream type `{dst.name}`'),
+                ]
+
+                for ert in sorted(dst.event_record_types, key=lambda ert: ert.name):
+                    dst_func_names.append((f'{dst.name}_trace_{ert.name}',
+                                           f'data stream type `{dst.name}`, event record type `{ert.name}`'))
+
+                for func_name, origin in dst_func_names:
+                    if func_name in func_names:
+                        raise _ConfigurationParseError('`data-stream-types` property',
+                                                       f'Generated C function name `{func_name}` is ambiguous: {func_names[func_name]} and {origin}')
+
+                    func_names[func_name] = origin
+
             # create trace type
             if self._trace_byte_order_prop_key == 'native-byte-order':
                 trace_type_cls = barectf_config.TraceType
